@@ -13,8 +13,10 @@ import (
 	"fmt"
 	"math/rand"
 	"net"
+	"net/http"
 	"sort"
 	"sync"
+	"sync/atomic"
 	"time"
 
 	"github.com/fatedier/frp/client/health"
@@ -112,6 +114,35 @@ func partHealth(sink *trace.Sink, rnd *rand.Rand, monitors int, seconds int, sta
 		}
 		sink.Emit("drv", "mon.new", "id", id, "max_failed", mf)
 		m := health.NewMonitor(ctx, v1.HealthCheckConfig{Type: "tcp", IntervalSeconds: 1, TimeoutSeconds: 1, MaxFailed: mf}, addr,
+			func() { sink.Emit("drv", "mon.status", "id", id, "ok", true) },
+			func() { sink.Emit("drv", "mon.status", "id", id, "ok", false) })
+		m.Start()
+		stats["monitor"]++
+	}
+	// http monitors: the backend answers every probe with the next status of its script and logs it before answering
+	for i := 0; i < 2; i++ {
+		id := fmt.Sprintf("h%d", i+1)
+		ln, err := net.Listen("tcp", fmt.Sprintf("127.0.0.1:%d", tnPort()))
+		if err != nil {
+			continue
+		}
+		addr := ln.Addr().String()
+		mu.Lock()
+		addr2id[addr] = id
+		mu.Unlock()
+		script := []int{200, 304, 300, 204, 301, 404, 299, 500, 200, 100 + 100*(1+rnd.Intn(5)) + rnd.Intn(3), 302, 200, 503, 206, 307}
+		rnd.Shuffle(len(script), func(a, b int) { script[a], script[b] = script[b], script[a] })
+		var k int32
+		hs := &http.Server{Handler: http.HandlerFunc(func(w http.ResponseWriter, _ *http.Request) {
+			st := script[int(atomic.AddInt32(&k, 1)-1)%len(script)]
+			sink.Emit("drv", "mon.answer", "id", id, "status", st)
+			w.WriteHeader(st)
+		})}
+		go hs.Serve(ln)
+		defer hs.Close()
+		mf := 1 + i
+		sink.Emit("drv", "mon.new", "id", id, "max_failed", mf)
+		m := health.NewMonitor(ctx, v1.HealthCheckConfig{Type: "http", Path: "/health", IntervalSeconds: 1, TimeoutSeconds: 1, MaxFailed: mf}, addr,
 			func() { sink.Emit("drv", "mon.status", "id", id, "ok", true) },
 			func() { sink.Emit("drv", "mon.status", "id", id, "ok", false) })
 		m.Start()
